@@ -210,7 +210,7 @@ def _via_pickled_task(c: Circuit) -> Circuit:
 
 TRANSPORTS = [
     ('pickle', lambda c: pickle.loads(pickle.dumps(c)), True),
-    ('dill', lambda c: dill.loads(dill.dumps(c)), True),
+    ('dill', lambda c: dill.loads(dill.dumps(c)), False),
     ('copy.copy', lambda c: copy.copy(c), False),
     ('copy.deepcopy', lambda c: copy.deepcopy(c), True),
     ('Circuit.copy', lambda c: c.copy(), True),
@@ -279,12 +279,14 @@ def ship_oracle(c: Circuit, battery: bool) -> 'str | None':
                     m(cp)
                 except Exception:  # noqa   (a mutator refusing is not this property's business)
                     pass
-                if snapshot(c) != snap:
+                if c.num_operations != snap[3] or c.num_cycles != snap[2]:
                     return '%s:shares-state:%s' % (name, m.__name__)
-                try:
-                    check_invariant(c, 'original after mutating the copy')
-                except Viol as v:
-                    return '%s:shares-state:%s:%s' % (name, m.__name__, v.fp)
+            if snapshot(c) != snap:
+                return '%s:shares-state' % name
+            try:
+                check_invariant(c, 'original after mutating the copies')
+            except Viol as v:
+                return '%s:shares-state:%s' % (name, v.fp)
     # operations and gates on their own
     for row in grid(c):
         for op in row:
@@ -379,7 +381,7 @@ def radix_run(xs: list) -> bool:
     W = 3
     import itertools
     try:
-        rad = tuple(2 + src.P(0, 1) for _ in range(W))
+        rad = tuple(S['rad']) if 'rad' in S else tuple(2 + src.P(0, 1) for _ in range(W))
         circ = Circuit(W, rad)
         for i, spec in enumerate(S['items'].split(',')):
             kind = spec if spec in 'BT' else 'BT'[src.P(0, 1)]
@@ -789,18 +791,6 @@ def circ(x0: int, x1: int, x2: int, x3: int, x4: int, x5: int, x6: int, x7: int,
                     [a0, a1, a2, a3, a4, a5, a6, a7, a8, a9, a10, a11, a12, a13, a14, a15, a16, a17, a18, a19])
 
 
-def _mk(fn: Any) -> Any:
-    def entry(x0: int, x1: int, x2: int, x3: int, x4: int, x5: int, x6: int, x7: int, x8: int, x9: int, x10: int,
-              x11: int, x12: int, x13: int, x14: int, x15: int, x16: int, x17: int, x18: int, x19: int, x20: int,
-              x21: int, x22: int, x23: int) -> bool:
-        """
-        post: _
-        """
-        return rt.nt(fn, [x0, x1, x2, x3, x4, x5, x6, x7, x8, x9, x10, x11, x12, x13, x14, x15, x16, x17, x18, x19,
-                          x20, x21, x22, x23])
-    return entry
-
-
 def radix(x0: int, x1: int, x2: int, x3: int, x4: int, x5: int, x6: int, x7: int, x8: int, x9: int, x10: int,
           x11: int, x12: int, x13: int, x14: int, x15: int, x16: int, x17: int, x18: int, x19: int, x20: int,
           x21: int, x22: int, x23: int) -> bool:
@@ -873,8 +863,10 @@ def obligations(tier: str) -> list[dict]:
             ob('circ/%s/pre2' % k, 'circ', {'W': 2, 'npre': 2, 'kinds': [k], 'codes': [1, 2, 4, 6], 'battery': False}, T)
         for k in MUT_QUICK:
             ob('circ/copy-then-%s' % k, 'circ', {'W': 2, 'npre': 2, 'kinds': [], 'mutate': k, 'codes': [1, 2, 5]}, T)
-        for first in 'BT':
-            ob('radix/%s,?' % first, 'radix', {'items': first + ',?'}, T)
+        ob('radix/1item', 'radix', {'items': '?'}, T)
+        for rad in ([2, 3, 2], [3, 2, 3]):
+            for first in 'BT':
+                ob('radix/%s,?/r%s' % (first, ''.join(map(str, rad))), 'radix', {'items': first + ',?', 'rad': rad}, T)
         ob('pd/mappings-x-graph', 'pd', {}, T)
         ob('pd/scalars', 'pd', {'maps': False, 'graph': False, 'scalars': True}, T)
         for o in outers:
@@ -897,11 +889,9 @@ def obligations(tier: str) -> list[dict]:
             ob('circ/fold-copy-then-%s' % k, 'circ', {'W': 3, 'npre': 1, 'kinds': ['fold'], 'mutate': k,
                                                       'prepop': False}, T)
         for first in 'BT':
+            ob('radix/%s,?' % first, 'radix', {'items': first + ',?'}, T)
             for second in 'BT':
-                ob('radix/%s,%s,?' % (first, second), 'radix', {'items': '%s,%s,?' % (first, second)}, T)
-        for u in range(3):
-            for t in range(2):
-                pass
+                ob('radix/%s,%s,?/r232' % (first, second), 'radix', {'items': '%s,%s,?' % (first, second), 'rad': [2, 3, 2]}, T)
         ob('pd/mappings-x-graph', 'pd', {}, T)
         ob('pd/mappings-x-graph/M4', 'pd', {'M': 4, 'maps': False}, T)
         ob('pd/scalars', 'pd', {'maps': False, 'graph': True, 'scalars': True}, T)
